@@ -150,14 +150,14 @@ def legacyDecFromStr (str0 : String) : Option Int :=
   | [whole] =>
     match bigBase10? (whole ++ repeatZeros 18) with
     | some c => let v := if neg then -c else c
-                if v.natAbs < 2 ^ 315 then some v else none
+                if v.natAbs < 2 ^ 256 * 10 ^ 18 then some v else none
     | none => none
   | [whole, frac] =>
     if frac.toList.length = 0 || whole.toList.length = 0 then none
     else if frac.toList.length > 18 then none
     else match bigBase10? (whole ++ frac ++ repeatZeros (18 - frac.toList.length)) with
       | some c => let v := if neg then -c else c
-                  if v.natAbs < 2 ^ 315 then some v else none
+                  if v.natAbs < 2 ^ 256 * 10 ^ 18 then some v else none
       | none => none
   | _ => none
 
@@ -272,40 +272,35 @@ def intIsPositive : Option Int → Res Bool
   | none => .panic .nilDeref
   | some v => .ok (decide (v > 0))
 
+/-- sequencing of two validation steps (`if err := a(); err != nil { return err }; b()`) -/
+def seqRes (a b : Res Unit) : Res Unit :=
+  match a with | .ok _ => b | .err e => .err e | .panic k => .panic k
+
+/-- the `switch amountStrategy := m.AmountStrategy.(type)` of SwapMetadata.Validate -/
+def validateStrategy : AmountStrategy → Res Unit
+  | .exactIn none => .err "min amount out cannot be empty"             -- FIX (nil *ExactAmountIn: `"exact_amount_in": null`)
+  | .exactIn (some none) => .err "min amount out cannot be empty"      -- FIX (nil math.Int: absent min_amount_out)
+  | .exactIn (some (some v)) =>                                        -- `IsPositive()` on a non-nil Int
+    if v > 0 then .ok () else .err "min amount out must be positive"
+  | .exactOut none => .err "amount out cannot be empty"                -- FIX
+  | .exactOut (some (none, _)) => .err "amount out cannot be empty"    -- FIX
+  | .exactOut (some (some v, change)) =>
+    if v ≤ 0 then .err "amount out must be positive"                   -- FIX
+    else match change with
+      | none => .ok ()
+      | some c => c.validate
+  | .none => .err "amount strategy cannot be empty"                    -- FIX (SwapIncomingFund dereferences the empty result)
+
 def SwapMeta.validate (m : SwapMeta) : Res Unit :=
   match m.route with
   | none => .err "route cannot be empty"                                   -- FIX (was: nil receiver dereference)
   | some r =>
     if hasNilStrategy r then .err "route strategy cannot be null" else     -- FIX (jsonpb `"pool": null`)
-    match Route.validate (some r) with
-    | .err e => .err e
-    | .panic k => .panic k
-    | .ok _ =>
-      let strat : Res Unit :=
-        match m.strategy with
-        | .exactIn none => .err "min amount out cannot be empty"           -- FIX (nil *ExactAmountIn)
-        | .exactIn (some none) => .err "min amount out cannot be empty"    -- FIX (nil math.Int)
-        | .exactIn (some (some v)) =>
-          match intIsPositive (some v) with
-          | .ok true => .ok ()
-          | .ok false => .err "min amount out must be positive"
-          | .err e => .err e
-          | .panic k => .panic k
-        | .exactOut none => .err "amount out cannot be empty"              -- FIX
-        | .exactOut (some (none, _)) => .err "amount out cannot be empty"  -- FIX
-        | .exactOut (some (some v, change)) =>
-          if v ≤ 0 then .err "amount out must be positive"                 -- FIX
-          else match change with
-            | none => .ok ()
-            | some c => c.validate
-        | .none => .err "amount strategy cannot be empty"                  -- FIX (later code dereferences the result)
-      match strat with
-      | .err e => .err e
-      | .panic k => .panic k
-      | .ok _ =>
-        match m.forward with
-        | none => .ok ()
-        | some f => f.validate
+    seqRes (Route.validate (some r)) <|
+    seqRes (validateStrategy m.strategy) <|
+    match m.forward with
+    | none => .ok ()
+    | some f => f.validate
 
 /-! ## jsonpb for the PacketMetadata schema (library boundary: value or error, never a panic — tested, not proved) -/
 
@@ -485,6 +480,15 @@ def pbPacket (j : J) (dropNext : Bool) : Pb PacketMeta := do
 
 /-! ## DecodeSwapMetadata (ibc.go) -/
 
+/-- the tail of DecodeSwapMetadata: jsonpb's verdict, then the `m.Swap` check -/
+def finishDecode (r : Pb PacketMeta) : Res PacketMeta :=
+  match r with
+  | .error e => .err e
+  | .ok m =>
+    match m.swap with
+    | none => .err "no swap filed in memo"                                         -- FIX (`m.Swap.Forward` on nil)
+    | some _ => .ok m
+
 /-- `memo = none`: the bytes are not JSON (encoding/json returns an error). -/
 def decodeSwapMetadata (memo : Option J) : Res PacketMeta :=
   match memo with
@@ -501,12 +505,7 @@ def decodeSwapMetadata (memo : Option J) : Res PacketMeta :=
       if !fwdOk then .err "forward field in memo must be an object" else            -- FIX (was `swap["forward"].(map…)`)
       -- `next` present and non-nil: it is cut out and the document re-marshalled before jsonpb sees it
       let dropNext : Bool := match fwd with | some f => (f.getNonNil "next").isSome | none => false
-      match pbPacket j dropNext with
-      | .error e => .err e
-      | .ok m =>
-        match m.swap with
-        | none => .err "no swap filed in memo"                                       -- FIX (`m.Swap.Forward` on nil)
-        | some _ => .ok m
+      finishDecode (pbPacket j dropNext)
 
 /-- what the middleware does with a memo: decode, then `(*m.Swap).Validate()`; classes as the harness prints them -/
 def memoClasses (memo : Option J) : String × String :=
@@ -531,9 +530,6 @@ def needPositive (x : Option Int) : Res Unit :=
 
 def needPresent (x : Option Int) : Res Unit :=
   match x with | none => .err "amount cannot be empty" | some _ => .ok ()           -- FIX
-
-def seqRes (a b : Res Unit) : Res Unit :=
-  match a with | .ok _ => b | .err e => .err e | .panic k => .panic k
 
 structure MsgSwapIn where
   senderOk : Bool
@@ -671,6 +667,16 @@ def headCreatePool (authOk baseOk quoteOk : Bool) (fee ratio offset : Option Int
     else if r ≤ 10 ^ 18 then .err "price ratio"                                                          -- FIX
     else if o < 0 ∨ o ≥ 10 ^ 18 then .err "base offset" else .ok ()                                      -- FIX
   | _, _, _ => .err "invalid decimal"
+
+/-- LegacyDec range assertion (|v| < 2^256·10^18) after `LegacyNewDecFromInt(amount).Quo(1 - rate)`: the arithmetic of
+    calculateInterfaceFeeExactAmountOut as the code is (known finding: amounts near 2^256 overflow) -/
+def interfaceFeeGross (amountOutNet rate : Int) : Res Int :=
+  match interfaceFeeDivisor rate with
+  | .ok d =>
+    let q := amountOutNet * 10 ^ 18 * 10 ^ 18 / d
+    if q.natAbs < 2 ^ 256 * 10 ^ 18 then .ok (q / 10 ^ 18) else .panic .intRange
+  | .err e => .err e
+  | .panic k => .panic k
 
 /-- the names of the service methods whose heads (or, for the swap messages and queries, whose route/metadata
     validation) are modelled above; every other method is exercised dynamically only -/
